@@ -250,6 +250,8 @@ class Check:
             if o['rule'] == rule and o['key'] == key:
                 if o['ok'] and not ok:
                     self.obs[i] = rec      # a failing instance wins over a passing one
+                elif o['ok'] and ok and nontrivial and not o['nontrivial']:
+                    self.obs[i] = rec      # among passing instances one that matched a construct wins
                 return bool(ok)
         self.obs.append(rec)
         return bool(ok)
